@@ -26,12 +26,15 @@ def gen_stats_tree(rng):
     t = {'opts': {'encoding': 'utf-8', 'version': '1.0'},
          'preamble': {'opts': {}, 'content': None},
          'meta': {'opts': {'format': 'json'}, 'content': rng.choice([{}, {'stats': {'custom': 7}}, {'title': 'x'},
-                                                                   {'stats': {'changes': 99, 'mine': 'keep'}, 'z': [1]}])},
+                                                                   {'stats': {'changes': 99, 'mine': 'keep'}, 'z': [1]},
+                                                                   {'stats': {'reviewed lines': 1000, 'mine': 3}}])},
          'changes': []}
     truth = []
     for _ in range(rng.randint(0, 4)):
         c = {'opts': {}, 'preamble': {'opts': {}, 'content': None},
-             'meta': {'opts': {'format': 'json'}, 'content': rng.choice([{}, {'author': 'a'}, {'stats': {'files': 99, 'k': 'v'}}])},
+             'meta': {'opts': {'format': 'json'}, 'content': rng.choice([{}, {'author': 'a'}, {'stats': {'files': 99, 'k': 'v'}},
+                                                                       {'stats': {'reviewed lines': 40, 'k': 9}},
+                                                                       {'stats': {'changes': 4, 'mine': 1}}])},
              'files': []}
         ctruth = []
         for _f in range(rng.randint(0, 4)):
@@ -62,7 +65,10 @@ def gen_stats_tree(rng):
             elif kind < 0.4:
                 opts['type'] = 'text'
             meta = rng.choice([{}, {'path': 'f'}, {'stats': {'insertions': 41, 'custom': [1, 2]}, 'path': 'g'},
-                               {'stats': {'lines changed': 5, 'deletions': 2, 'insertions': 3}}])
+                               {'stats': {'lines changed': 5, 'deletions': 2, 'insertions': 3}},
+                               # custom *integer* keys on a child: they stay where they are and are
+                               # neither summed into nor copied to the parents
+                               {'stats': {'reviewed lines': 7, 'k': 2}}, {'stats': {'files': 3, 'changes': 1, 'mine': 5}}])
             c['files'].append({'opts': {}, 'meta': {'opts': {'format': 'json'}, 'content': meta},
                                'diff': {'opts': opts, 'content': diff}})
             ctruth.append(expect)
